@@ -943,3 +943,123 @@ def gen_mvccconc(rng, tier, sess):
         step_job()
     sess.send('state')
     sess.send('shutdown')
+
+
+# ------------------------------------------------------------------------------------------------
+# exhaustive exploration of small scenarios (thorough tier): stateless depth-first search by re-execution
+# ------------------------------------------------------------------------------------------------
+
+class Explorer:
+    """Enumerates ALL schedules of a scenario: each logical thread has a fixed list of calls; a schedule is the
+    order in which their steps are taken. Every leaf is one fresh execution on the real code (one recorded case),
+    later replayed on the model. `blocked` answers and ops that yield `bad-op` are not scheduling alternatives."""
+
+    def __init__(self, engine, init_lines, calls, final_lines, cap=4000):
+        self.engine, self.init, self.calls, self.final, self.cap = engine, init_lines, calls, final_lines, cap
+        self.cases = []          # (lines, outs)
+        self.complete = True
+
+    def run(self, sess):
+        stack = [[]]             # prefixes (lists of thread choices) still to be executed
+        while stack:
+            if len(self.cases) >= self.cap:
+                self.complete = False
+                break
+            prefix = stack.pop()
+            alts = self.execute(sess, prefix)
+            # alts[d] = enabled alternatives at depth d that were not taken (only for d >= len(prefix))
+            for d in range(len(alts) - 1, len(prefix) - 1, -1):
+                for t in alts[d][1]:
+                    stack.append(alts[d][0] + [t])
+        return self.cases
+
+    def execute(self, sess, prefix):
+        sess.new_case()
+        for l in self.init:
+            sess.send(l)
+        n = len(self.calls)
+        nextcall = [0] * n
+        busy = [False] * n
+        blocked = set()
+        taken = []
+        alts = []
+
+        def enabled():
+            return [t for t in range(n) if (busy[t] and t not in blocked) or (not busy[t] and nextcall[t] < len(self.calls[t]))]
+
+        def take(t):
+            if busy[t]:
+                o = sess.send('step %d' % t)
+            else:
+                o = sess.send('start %d %s' % (t, self.calls[t][nextcall[t]]))
+                nextcall[t] += 1
+            head = o.split(' +')[0]
+            if head == 'blocked':
+                blocked.add(t)
+            elif head.startswith('at '):
+                busy[t] = True
+                blocked.clear()
+            else:
+                busy[t] = False
+                blocked.clear()
+            for j in o.split(' +')[1:]:
+                jobs.append(j)
+
+        jobs = []
+        depth = 0
+        guard = 0
+        while guard < 5000:
+            guard += 1
+            en = enabled()
+            if not en:
+                break
+            if depth < len(prefix):
+                t = prefix[depth]
+                if t not in en:
+                    break
+            else:
+                t = en[0]
+                alts.append((list(taken), [x for x in en[1:]]))
+            if depth < len(prefix):
+                alts.append((list(taken), []))
+            taken.append(t)
+            take(t)
+            depth += 1
+        # background jobs (mvccconc) are run to completion in creation order at the end
+        g2 = 0
+        while jobs and g2 < 1000:
+            g2 += 1
+            j = jobs[0]
+            o = sess.send('step ' + j)
+            parts = o.split(' +')
+            jobs.extend(parts[1:])
+            if parts[0].startswith('ret') or parts[0] == 'bad-op':
+                jobs.pop(0)
+        for l in self.final:
+            sess.send(l)
+        self.cases.append((list(sess.lines), list(sess.outs)))
+        return alts
+
+
+EXHAUSTIVE = {
+    'barrier': [
+        (['threads 3'], [['acquire', 'release 0'], ['acquire', 'release 0'], ['flush 1']], ['log', 'stats']),
+        (['threads 3'], [['acquire', 'release 0'], ['flush 1'], ['flush 2']], ['log', 'stats']),
+    ],
+    'refcount': [
+        (['init threads=3 snaps=1'], [['open 1'], ['close 1'], ['open 1']], ['state']),
+        (['init threads=2 snaps=2'], [['close 1'], ['close 2']], ['state']),
+        (['init threads=3 snaps=2'], [['close 2'], ['close 1'], ['gc']], ['state']),
+    ],
+    'skipconc': [
+        (['threads 2'], [['ins 2 lvl=1'], ['ins 2 lvl=1']], ['walk', 'stats']),
+        (['threads 2', 'start 0 ins 2 lvl=1', 'step 0', 'step 0', 'step 0', 'step 0', 'step 0', 'step 0', 'step 0', 'step 0'],
+         [['del 2'], ['ins 2 lvl=1']], ['walk', 'stats']),
+        (['threads 2', 'start 0 ins 2 lvl=0', 'step 0', 'step 0', 'step 0', 'step 0'], [['del 2'], ['del 2']], ['walk', 'stats']),
+    ],
+    'mvccconc': [
+        (['init writers=2 readers=0 cmp=plain', 'start 0 put 5 0', 'step 0'], [['del 5'], ['del 5']], ['snap', 'state']),
+        (['init writers=2 readers=0 cmp=plain', 'start 0 put 5 0', 'step 0', 'snap'], [['del 5', 'put 5 0'], ['del 5']], ['snap', 'state']),
+        (['init writers=2 readers=0 cmp=plain'], [['put 5 0', 'del 5'], ['put 5 0']], ['snap', 'state']),
+    ],
+}
